@@ -127,6 +127,9 @@ func doBurst(c *cmd) {
 	}
 	if !b.PerCallClient {
 		for _, bc := range b.Calls {
+			if bc.Raw != nil && bc.Client == "" {
+				continue // a hand-made request needs no generated client
+			}
 			if _, ok := shared[bc.Client]; !ok {
 				inv, err := mk(bc.Client)
 				if err != nil {
